@@ -21,7 +21,7 @@ from .core import TranslatorError
 OUTPUT = "StreamGen.v"
 ITEMS = ["init_low_water", "init_high_water", "init_high_water_chunks", "init_low_water_chunks",
          "chunk_size_raises", "chunk_size_low", "chunk_size_high", "feed_pause", "empty_chunk",
-         "chunk_pause", "take_partial", "split_stale", "resume_size", "resume_bytes", "resume_chunks",
+         "chunk_pause", "take_partial", "split_stale", "resume_open", "resume_size", "resume_bytes", "resume_chunks",
          "readchunk_at", "readchunk_ahead", "line_too_long", "readuntil max_size default", "wait_checks_exception", "read_all_chunk_size"]
 
 F = "aiohttp/streams.py"
@@ -189,10 +189,18 @@ def generate() -> str:
     if len(ifs) != 1:
         raise TranslatorError(f"_read_nowait_chunk: {len(ifs)} guarded resume_reading calls")
     rt = ifs[0].test
+    # optional leading conjunct `not self._eof` (repair b336e09: nothing is resumed once EOF was fed);
+    # translated as found into resume_open
+    not_eof = ast.dump(ast.parse("not self._eof", mode="eval").body)
+    if isinstance(rt, ast.BoolOp) and isinstance(rt.op, ast.And) and len(rt.values) == 3 and ast.dump(rt.values[0]) == not_eof:
+        out.append("Definition resume_open (eof : bool) : bool := negb eof.")
+        rt = ast.BoolOp(op=ast.And(), values=rt.values[1:])
+    else:
+        out.append("Definition resume_open (eof : bool) : bool := true.")
     ok = (isinstance(rt, ast.BoolOp) and isinstance(rt.op, ast.And) and len(rt.values) == 2
           and isinstance(rt.values[1], ast.BoolOp) and isinstance(rt.values[1].op, ast.Or) and len(rt.values[1].values) == 2)
     if not ok:
-        raise TranslatorError("_read_nowait_chunk: resume test is not `a and (splits is None or c)`")
+        raise TranslatorError("_read_nowait_chunk: resume test is not `[not self._eof and] a and (splits is None or c)`")
     isnone = rt.values[1].values[0]
     if ast.dump(isnone) != ast.dump(ast.parse("self._http_chunk_splits is None", mode="eval").body):
         raise TranslatorError("_read_nowait_chunk: resume test: first disjunct is not `self._http_chunk_splits is None`")
